@@ -436,6 +436,13 @@ type c18Delivery struct {
 
 const c18SentinelCh = "c18sentinel"
 
+func c18Sentinel(lists bool) string {
+	if lists {
+		return c18SentinelCh + "L"
+	}
+	return c18SentinelCh + "S"
+}
+
 type c18Handler struct {
 	mu   sync.Mutex
 	buf  []c18Delivery
@@ -443,7 +450,7 @@ type c18Handler struct {
 }
 
 func (h *c18Handler) HandlePublication(ch string, pub *Publication, sp StreamPosition, useDelta bool, prevPub *Publication) error {
-	if ch == c18SentinelCh {
+	if strings.HasPrefix(ch, c18SentinelCh) {
 		h.sent <- struct{}{}
 		return nil
 	}
@@ -948,7 +955,7 @@ func c18Setup(t *testing.T) *c18Env {
 
 func (e *c18Env) subscribe(t *testing.T, lists bool, chans []string) {
 	b := e.brokers[lists]
-	for _, ch := range append([]string{c18SentinelCh}, chans...) {
+	for _, ch := range append([]string{c18Sentinel(lists)}, chans...) {
 		if err := b.Subscribe(ch); err != nil {
 			t.Fatalf("subscribe %s: %v", ch, err)
 		}
@@ -956,7 +963,7 @@ func (e *c18Env) subscribe(t *testing.T, lists bool, chans []string) {
 }
 
 func (e *c18Env) flush(t *testing.T, lists bool) {
-	e.srv.inject("centrifuge.client."+c18SentinelCh, e.sentMsg)
+	e.srv.inject("centrifuge.client."+c18Sentinel(lists), e.sentMsg)
 	select {
 	case <-e.hs[lists].sent:
 	case <-time.After(10 * time.Second):
